@@ -170,6 +170,27 @@ func (dm *DMap) loadOrCreateFragment(part *partitions.Partition) (*fragment, err
 	return f, nil
 }
 
+// loadOrCreateLockedFragment loads or creates the fragment and acquires its lock. The janitor
+// or a Destroy call may wipe out the fragment between loading it and acquiring its lock.
+// Everything written to such a fragment would be lost, so it tries again with a fresh one.
+func (dm *DMap) loadOrCreateLockedFragment(part *partitions.Partition) (*fragment, error) {
+	for {
+		f, err := dm.loadOrCreateFragment(part)
+		if err != nil {
+			return nil, err
+		}
+		f.Lock()
+		select {
+		case <-f.ctx.Done():
+			// The fragment is closed and removed from the partition.
+			f.Unlock()
+			continue
+		default:
+		}
+		return f, nil
+	}
+}
+
 func (dm *DMap) loadFragment(part *partitions.Partition) (*fragment, error) {
 	f, ok := part.Map().Load(dm.fragmentName)
 	if !ok {
